@@ -153,7 +153,8 @@ CLAIMED = {
              "result is the member at start + (floor((p - start)/L) + 1)*L in the probe's zone: a member, strictly later, none "
              "between; None iff beyond the last member; the start before the series; C13_rat_first_after_is_valid; "
              "C13_first_after_floor_witness (the pre-repair version returns a non-member); _floor_agrees_on_whole_seconds (the "
-             "repair is conservative); C13_rat_first_after_extends_int. Op rfirstq.",
+             "repair is conservative); C13_rat_first_after_extends_int. Op rfirstq. Op rderivedint: intervals derived by + - * // from "
+             "a Duration with a past answer every query as the same interval built afresh.",
         design="DESIGN §8 C13",
         technique="Lean 4 proof + model/implementation correspondence"),
     "C14": dict(
@@ -261,7 +262,8 @@ CLAIMED = {
              "boundary witnesses per mode; op mktrunc compares the constructor with the model. C09_exceptions decides over the regenerated table that every raise site raises a "
              "class whose live MRO contains ValueError. PARTIAL: 'never another exception type, never a hang' of the Python "
              "on arbitrary text is observed on mutation/splice/garbage streams through the three parsers in 11 configurations "
-             "(known findings F10 cost, F11 TypeError), not proved.",
+             "(known findings F10 cost, F11 TypeError), not proved. Op recaccept: recurrence texts with an impossible point or a "
+             "malformed interval in each slot, every repetition count and notation, are refused and their valid twins accepted.",
         design="DESIGN §8 C09",
         technique="Lean 4 proof (acceptance iff validity; MRO table regenerated from the source) + constructor/text/garbage correspondence"),
     "C07": dict(
